@@ -61,7 +61,12 @@ def schema_text(version):
 
 
 OTHER = ('<xs:schema xmlns:xs="http://www.w3.org/2001/XMLSchema" targetNamespace="%s" elementFormDefault="qualified">'
-         '<xs:element name="known" type="xs:int"/></xs:schema>' % ONS)
+         '<xs:element name="known" type="xs:int"/><xs:simpleType name="T"><xs:restriction base="xs:int"/></xs:simpleType>'
+         '</xs:schema>' % ONS)
+# a second foreign namespace with a type of the same local name: documents bind one prefix to either namespace
+ONS2 = 'urn:c10:other2'
+OTHER2 = ('<xs:schema xmlns:xs="http://www.w3.org/2001/XMLSchema" targetNamespace="%s" elementFormDefault="qualified">'
+          '<xs:simpleType name="T"><xs:restriction base="xs:date"/></xs:simpleType></xs:schema>' % ONS2)
 
 
 # ------------------------------------------------------------------ documents
@@ -118,7 +123,11 @@ def gen_doc(rng):
                         '<o:thing xsi:type="xs:int" xmlns:xs="http://www.w3.org/2001/XMLSchema">y</o:thing>', '<o:thing><o:sub/></o:thing>',
                         'B', '<o:other>text</o:other>', '<o:thing>text</o:thing>', '<o:thing xsi:nil="true"/>',
                         '<o:thing xsi:type="xs:int" xsi:nil="true" xmlns:xs="http://www.w3.org/2001/XMLSchema"/>',
-                        '<o:known xsi:nil="true"/>'])
+                        '<o:known xsi:nil="true"/>',
+                        # the same lexical xsi:type with the prefix bound to two namespaces (T is an int there, a date here)
+                        '<o:thing xmlns:q="%s" xsi:type="q:T">5</o:thing>' % ONS, '<o:thing xmlns:q="%s" xsi:type="q:T">5</o:thing>' % ONS2,
+                        '<o:thing xmlns:q="%s" xsi:type="q:T">2020-01-01</o:thing>' % ONS2,
+                        '<o:thing xmlns:q="%s" xsi:type="q:T">2020-01-01</o:thing>' % ONS])
         if w == 'B':
             # a wildcard-matched element with a complex xsi:type: its items are selected by .//item
             vals = [rng.randint(1, 2) for _ in range(rng.randint(1, 2))]
@@ -264,6 +273,7 @@ def make_schema(xmlschema, version):
     cls = xmlschema.XMLSchema11 if version == '1.1' else xmlschema.XMLSchema10
     s = cls(schema_text(version), build=False)
     s.add_schema(OTHER, namespace=ONS)
+    s.add_schema(OTHER2, namespace=ONS2)
     s.build()
     return s
 
@@ -386,6 +396,17 @@ def gen(ctx):
         docs = [gen_doc(r) for _ in range(r.randint(2, 5))]
         n = r.randint(2, 12)
         history = [[r.choice(OPS), r.randrange(len(docs)), r.randint(0, 7)] for _ in range(n)]
+        cases.append({'seed': seed, 'version': '1.1' if i % 2 else '1.0', 'docs': docs, 'history': history})
+    # focused: one lexical xsi:type whose prefix is bound to two namespaces by different documents
+    ns = 'xmlns:xsi="%s" xmlns:o="%s"' % (XSI, ONS)
+    variants = ['<o:thing xmlns:q="%s" xsi:type="q:T">%s</o:thing>' % (u, v) for u in (ONS, ONS2) for v in ('5', '2020-01-01')]
+    for i in range(8 if ctx.quick() else 80):
+        seed = ctx.rng.randrange(10 ** 9)
+        r = random.Random(seed)
+        docs = [{'xml': '<R %s>%s</R>' % (ns, w), 'nodes': [(10, None, [1], [], 0)], 'root': 'R'} for w in variants]
+        r.shuffle(docs)
+        history = [[r.choice(['is_valid', 'iter_errors', 'decode_lax', 'validate', 'lazy_errors', 'decode_typed']), r.randrange(4), r.randint(0, 7)]
+                   for _ in range(r.randint(3, 8))]
         cases.append({'seed': seed, 'version': '1.1' if i % 2 else '1.0', 'docs': docs, 'history': history})
     return cases
 
